@@ -4,6 +4,7 @@
    API call returns there is nothing left to do without a further event (no lost wake-up on the
    mechanism side).  Also: structural frame facts of the whole mutual block (the net only
    grows).  Proof file. *)
+From PFDL Require Import Examples.
 From PFDL Require Import NetModel NetRun NetC08.
 Local Open Scope net_scope.
 Notation NM := NetModel.N.
@@ -541,25 +542,19 @@ Qed.
 Definition fpres (R : NS -> NS -> Prop) {A} (m : NM A) : Prop :=
   forall s a s', m s = Ok (a, s') -> R s s'.
 
-(* what a relation has to satisfy to be preserved by every function of the generator and of the
+(* What a relation has to satisfy to be preserved by every function of the generator and of the
    scheduler's mutual block: it is a preorder and every primitive state update respects it.
-   (The list below is the complete list of state updates in NetModel.v's generator and block.) *)
-Record frame_ok (R : NS -> NS -> Prop) : Prop := {
+   The updates come in two groups (together they are the complete list of state updates in
+   NetModel.v's generator and mutual block):
+   [frame_sched]: bookkeeping of the scheduler, the API objects and the environment, and the
+                  callback table;
+   [frame_net]  : marking and structure of the net. *)
+Record frame_sched (R : NS -> NS -> Prop) : Prop := {
   fr_refl : forall s, R s s;
   fr_trans : forall a b c, R a b -> R b c -> R a c;
-  (* the net *)
-  fr_create_place : fpres R create_place;
-  fr_create_transition : fpres R create_transition;
-  fr_add_input : forall p t, fpres R (add_input p t);
-  fr_add_output : forall p t, fpres R (add_output p t);
-  fr_add_callback : forall t c, fpres R (add_callback t c);
-  fr_place_add : forall p, fpres R (place_add p);
-  fr_fire_trans : forall t, fpres R (fire_trans t);
-  fr_remove_place : forall p, fpres R (remove_place p);
   fr_cbs : forall s index f, R s (s <| ns_cbs := upd index f (ns_cbs s) |>);
   (* API objects, identifiers *)
   fr_fresh_uuid : fpres R fresh_uuid;
-  fr_new_api : forall a, fpres R (new_api a);
   fr_set_api : forall i f, fpres R (set_api i f);
   fr_place_dict : forall s u p, R s (s <| ns_place_dict := (u, p) :: ns_place_dict s |>);
   fr_tid : forall s, R s (s <| ns_tid := S (ns_tid s) |>);
@@ -574,19 +569,28 @@ Record frame_ok (R : NS -> NS -> Prop) : Prop := {
   fr_nss : forall s, R s (s <| ns_nss := S (ns_nss s) |>);
   fr_nnot : forall s, R s (s <| ns_nnot := S (ns_nnot s) |>)
 }.
+
+Record frame_net (R : NS -> NS -> Prop) : Prop := {
+  fr_create_place : fpres R create_place;
+  fr_create_transition : fpres R create_transition;
+  fr_add_input : forall p t, fpres R (add_input p t);
+  fr_add_output : forall p t, fpres R (add_output p t);
+  fr_add_callback : forall t c, fpres R (add_callback t c);
+  fr_place_add : forall p, fpres R (place_add p);
+  fr_fire_trans : forall t, fpres R (fire_trans t);
+  fr_remove_place : forall p, fpres R (remove_place p);
+  fr_new_api : forall a, fpres R (new_api a)
+}.
+
+Record frame_ok (R : NS -> NS -> Prop) : Prop := {
+  fr_s : frame_sched R;
+  fr_n : frame_net R
+}.
+
 Arguments fr_refl {R} _.
 Arguments fr_trans {R} _.
-Arguments fr_create_place {R} _.
-Arguments fr_create_transition {R} _.
-Arguments fr_add_input {R} _.
-Arguments fr_add_output {R} _.
-Arguments fr_add_callback {R} _.
-Arguments fr_place_add {R} _.
-Arguments fr_fire_trans {R} _.
-Arguments fr_remove_place {R} _.
 Arguments fr_cbs {R} _.
 Arguments fr_fresh_uuid {R} _.
-Arguments fr_new_api {R} _.
 Arguments fr_set_api {R} _.
 Arguments fr_place_dict {R} _.
 Arguments fr_tid {R} _.
@@ -599,11 +603,21 @@ Arguments fr_running {R} _.
 Arguments fr_pending {R} _.
 Arguments fr_nss {R} _.
 Arguments fr_nnot {R} _.
-
+Arguments fr_create_place {R} _.
+Arguments fr_create_transition {R} _.
+Arguments fr_add_input {R} _.
+Arguments fr_add_output {R} _.
+Arguments fr_add_callback {R} _.
+Arguments fr_place_add {R} _.
+Arguments fr_fire_trans {R} _.
+Arguments fr_remove_place {R} _.
+Arguments fr_new_api {R} _.
+Arguments fr_s {R} _.
+Arguments fr_n {R} _.
 
 Section FrameCombinators.
   Variable R : NS -> NS -> Prop.
-  Variable FR : frame_ok R.
+  Variable FR : frame_sched R.
 
   Lemma fpres_ext : forall A (m m' : NM A), (forall s, m s = m' s) -> fpres R m' -> fpres R m.
   Proof. intros A m m' E H s a s' H1. rewrite E in H1. eauto. Qed.
@@ -647,7 +661,7 @@ Arguments fpres_bind {R} FR.
 Arguments fpres_nfor {R} FR.
 Arguments fpres_get_api {R} FR.
 
-
+(* one step of the syntax-directed proof; [FR : frame_sched R] *)
 Ltac fpres_step FR :=
   match goal with
   | |- fpres _ (nbind _ _) => apply (fpres_bind FR); [| intro]
@@ -661,16 +675,7 @@ Ltac fpres_step FR :=
     first [ apply (fr_cbs FR) | apply (fr_place_dict FR) | apply (fr_tid FR) | apply (fr_sid FR)
           | apply (fr_counters FR) | apply (fr_q FR) | apply (fr_awaited FR) | apply (fr_running FR)
           | apply (fr_pending FR) | apply (fr_nss FR) | apply (fr_nnot FR) ]
-  | |- fpres _ create_place => apply (fr_create_place FR)
-  | |- fpres _ create_transition => apply (fr_create_transition FR)
-  | |- fpres _ (add_input _ _) => apply (fr_add_input FR)
-  | |- fpres _ (add_output _ _) => apply (fr_add_output FR)
-  | |- fpres _ (add_callback _ _) => apply (fr_add_callback FR)
-  | |- fpres _ (place_add _) => apply (fr_place_add FR)
-  | |- fpres _ (fire_trans _) => apply (fr_fire_trans FR)
-  | |- fpres _ (remove_place _) => apply (fr_remove_place FR)
   | |- fpres _ fresh_uuid => apply (fr_fresh_uuid FR)
-  | |- fpres _ (new_api _) => apply (fr_new_api FR)
   | |- fpres _ (set_api _ _) => apply (fr_set_api FR)
   | |- fpres _ (nlog _) => apply (fr_log FR)
   | |- fpres _ (if ?b then _ else _) => destruct b
@@ -679,76 +684,35 @@ Ltac fpres_step FR :=
   end.
 Ltac fpres_tac FR := cbv zeta; repeat (fpres_step FR).
 
-Section Frame.
+(* the same with the net primitives; [FN : frame_net R] *)
+Ltac fpres_step_n FN :=
+  match goal with
+  | |- fpres _ create_place => apply (fr_create_place FN)
+  | |- fpres _ create_transition => apply (fr_create_transition FN)
+  | |- fpres _ (add_input _ _) => apply (fr_add_input FN)
+  | |- fpres _ (add_output _ _) => apply (fr_add_output FN)
+  | |- fpres _ (add_callback _ _) => apply (fr_add_callback FN)
+  | |- fpres _ (place_add _) => apply (fr_place_add FN)
+  | |- fpres _ (fire_trans _) => apply (fr_fire_trans FN)
+  | |- fpres _ (remove_place _) => apply (fr_remove_place FN)
+  | |- fpres _ (new_api _) => apply (fr_new_api FN)
+  end.
+Ltac fpres_tacN FR FN := cbv zeta; repeat (first [fpres_step_n FN | fpres_step FR]).
+
+(* ---- layer 1: everything that does not touch marking or structure of the net ---- *)
+Section FrameSched.
   Variable R : NS -> NS -> Prop.
-  Variable FR : frame_ok R.
+  Variable FR : frame_sched R.
+  Variable tasks : list task.
+  Variable env : envcfg.
 
   Lemma fpres_pop_cb : forall i, fpres R (pop_cb i).
   Proof. intros. unfold pop_cb. fpres_tac FR. Qed.
   Lemma fpres_set_counters : forall u d, fpres R (set_counters u d).
   Proof. intros. unfold set_counters. fpres_tac FR. Qed.
-  Lemma fpres_generate_service : forall n ins at_ ctx t1 t2 il,
-      fpres R (generate_service n ins at_ ctx t1 t2 il).
-  Proof. intros. unfold generate_service. fpres_tac FR. Qed.
-  Lemma fpres_generate_empty_parallel_loop : forall t1 t2, fpres R (generate_empty_parallel_loop t1 t2).
-  Proof. intros. unfold generate_empty_parallel_loop. fpres_tac FR. Qed.
-  Hint Resolve fpres_pop_cb fpres_set_counters fpres_generate_service
-       fpres_generate_empty_parallel_loop : pres.
-
-  (* ---- the generator ---- *)
-  Variable tasks : list task.
-
-  Lemma fpres_gen_go : forall gs n ctx tn pre first last il,
-      (forall ctx tn path s t1 t2 il, fpres R (gs ctx tn path s t1 t2 il)) ->
-      forall l i prev acc, fpres R (gen_go gs n ctx tn pre first last il i l prev acc).
-  Proof.
-    intros gs n ctx tn pre first last il Hgs. induction l as [|s r IH]; intros i prev acc.
-    - cbn [gen_go]. fpres_tac FR.
-    - cbn [gen_go]. fold (gen_go gs n ctx tn pre first last il). fpres_tac FR.
-  Qed.
-
-  Lemma fpres_gen_calls : forall gtc ctx tn path t1 sync il,
-      (forall c at_ ctx t1 t2 il, fpres R (gtc c at_ ctx t1 t2 il)) ->
-      forall l i, fpres R (gen_calls gtc ctx tn path t1 sync il i l).
-  Proof.
-    intros gtc ctx tn path t1 sync il Hg. induction l as [|c r IH]; intro i.
-    - cbn [gen_calls]. fpres_tac FR.
-    - cbn [gen_calls]. fold (gen_calls gtc ctx tn path t1 sync il). fpres_tac FR.
-  Qed.
-  Hint Resolve fpres_gen_go fpres_gen_calls : pres.
-
-  Lemma fpres_gstmt_body : forall gss gtc,
-      (forall ctx tn pre ss first last il, fpres R (gss ctx tn pre ss first last il)) ->
-      (forall c at_ ctx t1 t2 il, fpres R (gtc c at_ ctx t1 t2 il)) ->
-      forall ctx tn path s t1 t2 il, fpres R (gstmt_body gss gtc ctx tn path s t1 t2 il).
-  Proof.
-    intros gss gtc H1 H2 ctx tn path s t1 t2 il. unfold gstmt_body. fpres_tac FR.
-  Qed.
-
-  Lemma fpres_gtc_body : forall gss,
-      (forall ctx tn pre ss first last il, fpres R (gss ctx tn pre ss first last il)) ->
-      forall c at_ ctx t1 t2 il, fpres R (gtc_body tasks gss c at_ ctx t1 t2 il).
-  Proof. intros gss H1 c at_ ctx t1 t2 il. unfold gtc_body. fpres_tac FR. Qed.
-
-  Theorem frame_generate : forall f,
-      (forall ctx tn pre ss first last il, fpres R (generate_statements tasks f ctx tn pre ss first last il)) /\
-      (forall ctx tn path s t1 t2 il, fpres R (generate_stmt tasks f ctx tn path s t1 t2 il)) /\
-      (forall c at_ ctx t1 t2 il, fpres R (generate_task_call tasks f c at_ ctx t1 t2 il)).
-  Proof.
-    induction f as [|f (IH1 & IH2 & IH3)].
-    - split; [|split]; intros; intros ? ? ? HH; discriminate HH.
-    - split; [|split]; intros.
-      + eapply fpres_ext; [intro; apply generate_statements_S|]. apply fpres_gen_go. exact IH2.
-      + eapply fpres_ext; [intro; apply generate_stmt_S|]. apply fpres_gstmt_body; assumption.
-      + eapply fpres_ext; [intro; apply generate_task_call_S|]. apply fpres_gtc_body; assumption.
-  Qed.
-
-  (* ---- the scheduler block ---- *)
-  Variable env : envcfg.
-
   Lemma fpres_new_test_or_uuid : forall b, fpres R (new_test_or_uuid b).
   Proof. intro b. unfold new_test_or_uuid. fpres_tac FR. Qed.
-  Hint Resolve fpres_new_test_or_uuid : pres.
+  Hint Resolve fpres_pop_cb fpres_set_counters fpres_new_test_or_uuid : pres.
   Lemma fpres_substitute_loop_indexes : forall ai, fpres R (substitute_loop_indexes tasks ai).
   Proof. intro ai. unfold substitute_loop_indexes. fpres_tac FR. Qed.
   Lemma fpres_get_loop_limit : forall lim ctx, fpres R (get_loop_limit env lim ctx).
@@ -757,15 +721,6 @@ Section Frame.
   Proof. intros. unfold check_expression. fpres_tac FR. Qed.
   Hint Resolve fpres_substitute_loop_indexes fpres_get_loop_limit fpres_check_expression : pres.
 
-  Lemma fpres_parloop_generate : forall v lim ctx c csite ph t1 t2,
-      fpres R (parloop_generate tasks env v lim ctx c csite ph t1 t2).
-  Proof.
-    intros. unfold parloop_generate.
-    pose proof (proj2 (proj2 (frame_generate 200))) as Hg.
-    fpres_tac FR.
-  Qed.
-  Hint Resolve fpres_parloop_generate : pres.
-
   Lemma fpres_each_with : forall rc index, (forall c, fpres R (rc c)) ->
       forall h i, fpres R (each_with rc index h i).
   Proof.
@@ -773,25 +728,16 @@ Section Frame.
     - cbn [each_with]. fpres_tac FR.
     - cbn [each_with]. fold (each_with rc index). fpres_tac FR.
   Qed.
-  Hint Resolve fpres_each_with : pres.
 
-  Lemma fpres_scan_with : forall rc snap, (forall c, fpres R (rc c)) ->
-      forall g index, fpres R (scan_with rc snap g index).
-  Proof.
-    intros rc snap Hrc. induction g as [|g IH]; intro index.
-    - cbn [scan_with]. fpres_tac FR.
-    - cbn [scan_with]. fold (scan_with rc snap). fpres_tac FR.
-  Qed.
-
-  Lemma fpres_run_cb_body : forall ev_ ots otf oss osf sfe,
-      fpres R ev_ -> (forall a, fpres R (ots a)) -> (forall a, fpres R (otf a)) ->
+  (* every callback except the parallel-loop one *)
+  Lemma fpres_run_cb_body_plain : forall ev_ ots otf oss osf sfe,
+      (forall a, fpres R (ots a)) -> (forall a, fpres R (otf a)) ->
       (forall a, fpres R (oss a)) -> (forall a, fpres R (osf a)) -> (forall e, fpres R (sfe e)) ->
-      forall c, fpres R (run_cb_body tasks env ev_ ots otf oss osf sfe c).
+      forall c, is_parloop_cb c = false ->
+                fpres R (run_cb_body tasks env ev_ ots otf oss osf sfe c).
   Proof.
-    intros ev_ ots otf oss osf sfe H1 H2 H3 H4 H5 H6 c. unfold run_cb_body, await_and_fire.
-    destruct c; try solve [fpres_tac FR].
-    apply fpres_ext with (m' := parloop_generate tasks env v lim ctx c csite ph t1 t2 ;;~ ev_);
-      [intro; apply parloop_then_eq|]. fpres_tac FR.
+    intros ev_ ots otf oss osf sfe H2 H3 H4 H5 H6 c Hc. unfold run_cb_body, await_and_fire.
+    destruct c; try discriminate Hc; fpres_tac FR.
   Qed.
 
   Lemma fpres_ots_body : forall nu, (forall k a b, fpres R (nu k a b)) -> forall ai, fpres R (ots_body tasks nu ai).
@@ -815,8 +761,105 @@ Section Frame.
   Proof. intros sfe H k ai. unfold er_body. fpres_tac FR. Qed.
   Lemma fpres_sfe_body : forall lfe, (forall e, fpres R (lfe e)) -> forall ev, fpres R (sfe_body lfe ev).
   Proof. intros lfe H ev. unfold sfe_body. fpres_tac FR. Qed.
+End FrameSched.
+
+(* ---- layer 2: the generator, the scan, the parallel-loop callback, fire_event ---- *)
+Section Frame.
+  Variable R : NS -> NS -> Prop.
+  Variable FR : frame_sched R.
+  Variable FN : frame_net R.
+
+  Hint Resolve fpres_pop_cb fpres_set_counters fpres_get_loop_limit fpres_each_with : pres.
+
+  Lemma fpres_generate_service : forall n ins at_ ctx t1 t2 il,
+      fpres R (generate_service n ins at_ ctx t1 t2 il).
+  Proof. intros. unfold generate_service. fpres_tacN FR FN. Qed.
+  Lemma fpres_generate_empty_parallel_loop : forall t1 t2, fpres R (generate_empty_parallel_loop t1 t2).
+  Proof. intros. unfold generate_empty_parallel_loop. fpres_tacN FR FN. Qed.
+  Hint Resolve fpres_generate_service fpres_generate_empty_parallel_loop : pres.
+
+  (* ---- the generator ---- *)
+  Variable tasks : list task.
+
+  Lemma fpres_gen_go : forall gs n ctx tn pre first last il,
+      (forall ctx tn path s t1 t2 il, fpres R (gs ctx tn path s t1 t2 il)) ->
+      forall l i prev acc, fpres R (gen_go gs n ctx tn pre first last il i l prev acc).
+  Proof.
+    intros gs n ctx tn pre first last il Hgs. induction l as [|s r IH]; intros i prev acc.
+    - cbn [gen_go]. fpres_tacN FR FN.
+    - cbn [gen_go]. fold (gen_go gs n ctx tn pre first last il). fpres_tacN FR FN.
+  Qed.
+
+  Lemma fpres_gen_calls : forall gtc ctx tn path t1 sync il,
+      (forall c at_ ctx t1 t2 il, fpres R (gtc c at_ ctx t1 t2 il)) ->
+      forall l i, fpres R (gen_calls gtc ctx tn path t1 sync il i l).
+  Proof.
+    intros gtc ctx tn path t1 sync il Hg. induction l as [|c r IH]; intro i.
+    - cbn [gen_calls]. fpres_tacN FR FN.
+    - cbn [gen_calls]. fold (gen_calls gtc ctx tn path t1 sync il). fpres_tacN FR FN.
+  Qed.
+  Hint Resolve fpres_gen_go fpres_gen_calls : pres.
+
+  Lemma fpres_gstmt_body : forall gss gtc,
+      (forall ctx tn pre ss first last il, fpres R (gss ctx tn pre ss first last il)) ->
+      (forall c at_ ctx t1 t2 il, fpres R (gtc c at_ ctx t1 t2 il)) ->
+      forall ctx tn path s t1 t2 il, fpres R (gstmt_body gss gtc ctx tn path s t1 t2 il).
+  Proof.
+    intros gss gtc H1 H2 ctx tn path s t1 t2 il. unfold gstmt_body. fpres_tacN FR FN.
+  Qed.
+
+  Lemma fpres_gtc_body : forall gss,
+      (forall ctx tn pre ss first last il, fpres R (gss ctx tn pre ss first last il)) ->
+      forall c at_ ctx t1 t2 il, fpres R (gtc_body tasks gss c at_ ctx t1 t2 il).
+  Proof. intros gss H1 c at_ ctx t1 t2 il. unfold gtc_body. fpres_tacN FR FN. Qed.
+
+  Theorem frame_generate : forall f,
+      (forall ctx tn pre ss first last il, fpres R (generate_statements tasks f ctx tn pre ss first last il)) /\
+      (forall ctx tn path s t1 t2 il, fpres R (generate_stmt tasks f ctx tn path s t1 t2 il)) /\
+      (forall c at_ ctx t1 t2 il, fpres R (generate_task_call tasks f c at_ ctx t1 t2 il)).
+  Proof.
+    induction f as [|f (IH1 & IH2 & IH3)].
+    - split; [|split]; intros; intros ? ? ? HH; discriminate HH.
+    - split; [|split]; intros.
+      + eapply fpres_ext; [intro; apply generate_statements_S|]. apply fpres_gen_go. exact IH2.
+      + eapply fpres_ext; [intro; apply generate_stmt_S|]. apply fpres_gstmt_body; assumption.
+      + eapply fpres_ext; [intro; apply generate_task_call_S|]. apply fpres_gtc_body; assumption.
+  Qed.
+
+  (* ---- the scheduler block ---- *)
+  Variable env : envcfg.
+
+  Lemma fpres_parloop_generate : forall v lim ctx c csite ph t1 t2,
+      fpres R (parloop_generate tasks env v lim ctx c csite ph t1 t2).
+  Proof.
+    intros. unfold parloop_generate.
+    pose proof (proj2 (proj2 (frame_generate 200))) as Hg.
+    fpres_tacN FR FN.
+  Qed.
+  Hint Resolve fpres_parloop_generate : pres.
+
+  Lemma fpres_scan_with : forall rc snap, (forall c, fpres R (rc c)) ->
+      forall g index, fpres R (scan_with rc snap g index).
+  Proof.
+    intros rc snap Hrc. induction g as [|g IH]; intro index.
+    - cbn [scan_with]. fpres_tacN FR FN.
+    - cbn [scan_with]. fold (scan_with rc snap). fpres_tacN FR FN.
+  Qed.
+
+  Lemma fpres_run_cb_body : forall ev_ ots otf oss osf sfe,
+      fpres R ev_ -> (forall a, fpres R (ots a)) -> (forall a, fpres R (otf a)) ->
+      (forall a, fpres R (oss a)) -> (forall a, fpres R (osf a)) -> (forall e, fpres R (sfe e)) ->
+      forall c, fpres R (run_cb_body tasks env ev_ ots otf oss osf sfe c).
+  Proof.
+    intros ev_ ots otf oss osf sfe H1 H2 H3 H4 H5 H6 c.
+    destruct (is_parloop_cb c) eqn:Hc; [|apply fpres_run_cb_body_plain; assumption].
+    destruct c; try discriminate Hc. cbn [run_cb_body].
+    apply fpres_ext with (m' := parloop_generate tasks env v lim ctx c csite ph t1 t2 ;;~ ev_);
+      [intro; apply parloop_then_eq|]. fpres_tacN FR FN.
+  Qed.
+
   Lemma fpres_lfe_body : forall ev_, fpres R ev_ -> forall ev, fpres R (lfe_body ev_ ev).
-  Proof. intros ev_ H ev. unfold lfe_body. fpres_tac FR. Qed.
+  Proof. intros ev_ H ev. unfold lfe_body. fpres_tacN FR FN. Qed.
 
   (* the frame rule: a relation respected by the primitive updates is respected by every
      function of the mutual block, at every fuel *)
@@ -847,11 +890,11 @@ Section Frame.
       + eapply fpres_ext; [intro; apply logic_fire_event_S|]. apply fpres_lfe_body; assumption.
   Qed.
 End Frame.
-Arguments frame_generate {R} FR tasks f.
-Arguments frame_block {R} FR tasks env f.
-Arguments fpres_parloop_generate {R} FR tasks env.
-Arguments fpres_scan_with {R} FR.
 
+Arguments frame_generate {R} FR FN tasks f.
+Arguments frame_block {R} FR FN tasks env f.
+Arguments fpres_parloop_generate {R} FR FN tasks env.
+Arguments fpres_scan_with {R} FR FN.
 
 (* ---- instance: the net only grows ---- *)
 
@@ -891,15 +934,15 @@ Ltac prim_solve :=
 
 Theorem le_ns_frame : frame_ok le_ns.
 Proof.
-  constructor; first [exact le_ns_refl | exact le_ns_trans | solve [prim_solve]].
+  constructor; constructor; first [exact le_ns_refl | exact le_ns_trans | solve [prim_solve]].
 Qed.
 
 Definition pres {A} (m : NM A) : Prop := fpres le_ns m.
 
-Definition pres_generate tasks := frame_generate le_ns_frame tasks.
-Definition pres_block tasks env := frame_block le_ns_frame tasks env.
-Definition pres_parloop_generate tasks env := fpres_parloop_generate le_ns_frame tasks env.
-Definition pres_fire_trans := fr_fire_trans le_ns_frame.
+Definition pres_generate tasks := frame_generate (fr_s le_ns_frame) (fr_n le_ns_frame) tasks.
+Definition pres_block tasks env := frame_block (fr_s le_ns_frame) (fr_n le_ns_frame) tasks env.
+Definition pres_parloop_generate tasks env := fpres_parloop_generate (fr_s le_ns_frame) (fr_n le_ns_frame) tasks env.
+Definition pres_fire_trans := fr_fire_trans (fr_n le_ns_frame).
 
 (* =========================================================================== *)
 (* 3. the scan: a pass that ends normally leaves every scanned transition disabled *)
@@ -1441,7 +1484,7 @@ Definition fixed_fields (s s' : NS) : Prop :=
 
 Theorem fixed_fields_frame : frame_ok fixed_fields.
 Proof.
-  constructor;
+  constructor; constructor;
     try (intros; try (match goal with |- fpres _ _ => intros ? ? ? HH; inversion HH; subst; clear HH end);
          unfold fixed_fields; cbn; repeat split; reflexivity).
   unfold fixed_fields. intros a b c H1 H2. intuition congruence.
@@ -1455,7 +1498,7 @@ Definition counters_grow (s s' : NS) : Prop :=
 
 Theorem counters_grow_frame : frame_ok counters_grow.
 Proof.
-  constructor;
+  constructor; constructor;
     try (intros; try (match goal with |- fpres _ _ => intros ? ? ? HH; inversion HH; subst; clear HH end);
          unfold counters_grow; cbn; repeat split; try lia; first [exists []; reflexivity | eexists; reflexivity]).
   unfold counters_grow. intros a b c (A1 & A2 & A3 & A4 & A5 & ea & A6) (B1 & B2 & B3 & B4 & B5 & eb & B6).
@@ -1529,7 +1572,7 @@ Definition places_stable' (s s' : NS) : Prop :=
 
 Theorem places_stable_frame : frame_ok places_stable'.
 Proof.
-  constructor;
+  constructor; constructor;
     try (intros; try (match goal with |- fpres _ _ => intros ? ? ? HH; inversion HH; subst; clear HH end);
          unfold places_stable'; cbn; split; [lia|apply places_rel_refl]).
   - intros a b c (L1 & H1) (L2 & H2). split; [lia|]. eapply places_rel_trans; eauto.
@@ -1566,7 +1609,7 @@ Section FrameInstances.
   Proof.
     intros f ev s b s' H.
     eapply (proj1 (proj2 (proj2 (proj2 (proj2 (proj2 (proj2 (proj2 (proj2
-             (frame_block fixed_fields_frame tasks env f)))))))))); eauto.
+             (frame_block (fr_s fixed_fields_frame) (fr_n fixed_fields_frame) tasks env f)))))))))); eauto.
   Qed.
 
   Theorem sched_fire_event_counters_grow : forall f ev s b s',
@@ -1574,7 +1617,7 @@ Section FrameInstances.
   Proof.
     intros f ev s b s' H.
     eapply (proj1 (proj2 (proj2 (proj2 (proj2 (proj2 (proj2 (proj2 (proj2
-             (frame_block counters_grow_frame tasks env f)))))))))); eauto.
+             (frame_block (fr_s counters_grow_frame) (fr_n counters_grow_frame) tasks env f)))))))))); eauto.
   Qed.
 
   Theorem sched_fire_event_places_stable : forall f ev s b s',
@@ -1582,13 +1625,370 @@ Section FrameInstances.
   Proof.
     intros f ev s b s' H. apply places_stable'_stable.
     eapply (proj1 (proj2 (proj2 (proj2 (proj2 (proj2 (proj2 (proj2 (proj2
-             (frame_block places_stable_frame tasks env f)))))))))); eauto.
+             (frame_block (fr_s places_stable_frame) (fr_n places_stable_frame) tasks env f)))))))))); eauto.
   Qed.
 
   Theorem evaluate_places_stable : forall f s u s',
       evaluate tasks env f s = Ok (u, s') -> places_stable s s'.
   Proof.
     intros f s u s' H. apply places_stable'_stable.
-    eapply (proj1 (frame_block places_stable_frame tasks env f)); eauto.
+    eapply (proj1 (frame_block (fr_s places_stable_frame) (fr_n places_stable_frame) tasks env f)); eauto.
   Qed.
 End FrameInstances.
+
+(* =========================================================================== *)
+(* 6. the strong form: when evaluate_petri_net returns, NO transition is enabled, *)
+(*    also when the net grew during the call (run-time generation)                *)
+(* =========================================================================== *)
+(* Why transitions created during an evaluation (which its scan never looks at) cannot be left
+   enabled: marking and structure of the net only change (1) by a firing inside a scan, (2) by
+   PetriNetLogic.fire_event putting a token, (3) by the parallel-loop callback generating and
+   removing places; (2) and (3) are immediately followed by a fresh evaluation, whose snapshot
+   contains every transition existing at that moment.  So every callback either leaves marking
+   and structure as they were or returns with nothing enabled at all, and a scan that has seen
+   the net grow cannot fire again. *)
+
+Definition unchanged_or_quiescent (s s' : NS) : Prop :=
+  (ns_places s' = ns_places s /\ ns_trans s' = ns_trans s) \/ quiescent s'.
+
+Lemma quiescent_same : forall s s',
+    ns_places s' = ns_places s -> ns_trans s' = ns_trans s -> quiescent s -> quiescent s'.
+Proof.
+  intros s s' E1 E2 Hq t Ht. unfold enabled, tokens. rewrite E1. apply Hq. rewrite <- E2. exact Ht.
+Qed.
+
+Theorem unchanged_or_quiescent_sched : frame_sched unchanged_or_quiescent.
+Proof.
+  constructor;
+    try (intros; try (match goal with |- fpres _ _ => intros ? ? ? HH; inversion HH; subst; clear HH end);
+         left; split; reflexivity).
+  intros a b c [(A1 & A2)|A] [(B1 & B2)|B].
+  - left. split; congruence.
+  - right; exact B.
+  - right. eapply quiescent_same; eauto.
+  - right; exact B.
+Qed.
+
+Section Strong.
+  Variable tasks : list task.
+  Variable env : envcfg.
+
+  Lemma scan_with_all_quiescent : forall rc snap,
+      (forall c, fpres unchanged_or_quiescent (rc c)) ->
+      (forall pl s u s', is_parloop_cb pl = true -> rc pl s = Ok (u, s') -> quiescent s') ->
+      forall g index s u s',
+        scan_with rc snap g index s = Ok (u, s') ->
+        disabled_below index s ->
+        List.length (ns_trans s) = snap \/ quiescent s ->
+        quiescent s'.
+  Proof.
+    intros rc snap Hrc Hpl.
+    induction g as [|g IH]; intros index s u s' H Hdis Hinv; cbn [scan_with] in H.
+    - discriminate H.
+    - fold (scan_with rc snap) in H.
+      destruct (Nat.leb snap index) eqn:Hle.
+      + inversion H; subst. apply Nat.leb_le in Hle. destruct Hinv as [Hlen|Hq]; [|exact Hq].
+        eapply disabled_below_all; [|exact Hdis]. lia.
+      + unfold nbind at 1, nget in H.
+        destruct (nth_error (ns_trans s) index) as [t|] eqn:Hnth.
+        * destruct (enabled s t) eqn:Hen.
+          -- assert (Hlen : List.length (ns_trans s) = snap).
+             { destruct Hinv as [Hlen|Hq]; [exact Hlen|].
+               rewrite (Hq t) in Hen; [discriminate Hen|]. eapply nth_error_In; eauto. }
+             cbv zeta in H.
+             destruct (find_pl (S (List.length (nth index (ns_cbs s) []))) 0
+                               (nth index (ns_cbs s) []) None) as [temp cbs1] eqn:Hfind.
+             destruct temp as [pl|].
+             ++ apply nbind_inv in H. destruct H as (u1 & s1 & H1 & H).
+                apply nbind_inv in H. destruct H as (u2 & s2 & H2 & H).
+                eapply Hpl; [|exact H].
+                eapply find_pl_parloop; [exact Hfind| |reflexivity]. intros c Hc; discriminate Hc.
+             ++ apply nbind_inv in H. destruct H as (u1 & s1 & H1 & H).
+                apply nbind_inv in H. destruct H as (u2 & s2 & H2 & H).
+                apply (IH 0 s2 u s' H); [intros i t' Hi; inversion Hi|].
+                pose proof (fpres_each_with unchanged_or_quiescent unchanged_or_quiescent_sched
+                                            rc index Hrc _ _ _ _ _ H2) as [(E1 & E2)|Hq].
+                ** left. rewrite E2. assert (Et : ns_trans s1 = ns_trans s) by (inversion H1; reflexivity).
+                   rewrite Et. exact Hlen.
+                ** right; exact Hq.
+          -- apply (IH (S index) s u s' H); [|exact Hinv].
+             intros i t' Hi Hi'.
+             destruct (Nat.eq_dec i index) as [->|Hne].
+             ++ rewrite Hnth in Hi'. inversion Hi'; subst. exact Hen.
+             ++ apply (Hdis i t'); [lia|exact Hi'].
+        * inversion H; subst. apply nth_error_None in Hnth.
+          eapply disabled_below_all; [|exact Hdis]. exact Hnth.
+  Qed.
+
+  Lemma lfe_body_uq : forall ev_,
+      (forall s u s', ev_ s = Ok (u, s') -> quiescent s') ->
+      forall ev, fpres unchanged_or_quiescent (lfe_body ev_ ev).
+  Proof.
+    intros ev_ Hev ev s b s' H. unfold lfe_body in H. unfold nbind at 1, nget in H.
+    destruct (event_place s ev) as [[p|]| | |]; try discriminate H.
+    - destruct (has_place s p).
+      + apply nbind_inv in H. destruct H as (u1 & s1 & H1 & H).
+        apply nbind_inv in H. destruct H as (u2 & s2 & H2 & H).
+        inversion H; subst. right. eapply Hev; eauto.
+      + inversion H; subst. left; split; reflexivity.
+    - inversion H; subst. left; split; reflexivity.
+  Qed.
+
+  Lemma run_cb_body_parloop_quiescent : forall ev_ ots otf oss osf sfe,
+      (forall s u s', ev_ s = Ok (u, s') -> quiescent s') ->
+      forall c s u s', is_parloop_cb c = true ->
+                       run_cb_body tasks env ev_ ots otf oss osf sfe c s = Ok (u, s') ->
+                       quiescent s'.
+  Proof.
+    intros ev_ ots otf oss osf sfe Hev c s u s' Hc H.
+    destruct c; try discriminate Hc. cbn [run_cb_body] in H. rewrite parloop_then_eq in H.
+    apply nbind_inv in H. destruct H as (u1 & s1 & H1 & H). eapply Hev; eauto.
+  Qed.
+
+  Theorem quiescent_block : forall f,
+      (forall s u s', evaluate tasks env f s = Ok (u, s') -> quiescent s') /\
+      (forall c, fpres unchanged_or_quiescent (run_cb tasks env f c)) /\
+      (forall c s u s', is_parloop_cb c = true -> run_cb tasks env f c s = Ok (u, s') -> quiescent s') /\
+      (forall a, fpres unchanged_or_quiescent (on_task_started tasks env f a)) /\
+      (forall a, fpres unchanged_or_quiescent (on_service_started tasks env f a)) /\
+      (forall a, fpres unchanged_or_quiescent (on_service_finished tasks env f a)) /\
+      (forall a, fpres unchanged_or_quiescent (on_task_finished tasks env f a)) /\
+      (forall k a b, fpres unchanged_or_quiescent (notify_user tasks env f k a b)) /\
+      (forall k a, fpres unchanged_or_quiescent (engine_reacts tasks env f k a)) /\
+      (forall ev, fpres unchanged_or_quiescent (sched_fire_event tasks env f ev)) /\
+      (forall ev, fpres unchanged_or_quiescent (logic_fire_event tasks env f ev)).
+  Proof.
+    pose proof unchanged_or_quiescent_sched as FS.
+    induction f as [|f (I1 & I2 & I2' & I3 & I4 & I5 & I6 & I7 & I8 & I9 & I10)].
+    - split; [intros ? ? ? HH; discriminate HH|].
+      split; [intros; intros ? ? ? HH; discriminate HH|].
+      split; [intros ? ? ? ? ? HH; discriminate HH|].
+      repeat (split; [intros; intros ? ? ? HH; discriminate HH|]). intros; intros ? ? ? HH; discriminate HH.
+    - assert (E : forall s u s', evaluate tasks env (S f) s = Ok (u, s') -> quiescent s').
+      { intros s u s' HH. rewrite evaluate_S in HH.
+        eapply scan_with_all_quiescent; [exact I2|exact I2'|exact HH| |left; reflexivity].
+        intros i t Hi; inversion Hi. }
+      assert (P : forall c s u s', is_parloop_cb c = true ->
+                                   run_cb tasks env (S f) c s = Ok (u, s') -> quiescent s').
+      { intros c s u s' Hc HH. rewrite run_cb_S in HH.
+        eapply run_cb_body_parloop_quiescent; [exact I1|exact Hc|exact HH]. }
+      split; [exact E|]. split; [|split; [exact P|]].
+      { intro c. destruct (is_parloop_cb c) eqn:Hc.
+        - intros s u s' HH. right. eapply P; eauto.
+        - eapply fpres_ext; [intro; apply run_cb_S|]. apply fpres_run_cb_body_plain; assumption. }
+      split; [|split; [|split; [|split; [|split; [|split; [|split]]]]]]; intros.
+      + eapply fpres_ext; [intro; apply on_task_started_S|]. apply fpres_ots_body; assumption.
+      + eapply fpres_ext; [intro; apply on_service_started_S|]. apply fpres_oss_body; assumption.
+      + eapply fpres_ext; [intro; apply on_service_finished_S|]. apply I7.
+      + eapply fpres_ext; [intro; apply on_task_finished_S|]. apply fpres_otf_body; assumption.
+      + eapply fpres_ext; [intro; apply notify_user_S|]. apply fpres_nu_body; assumption.
+      + eapply fpres_ext; [intro; apply engine_reacts_S|]. apply fpres_er_body; assumption.
+      + eapply fpres_ext; [intro; apply sched_fire_event_S'|]. apply fpres_sfe_body; assumption.
+      + eapply fpres_ext; [intro; apply logic_fire_event_S|]. apply lfe_body_uq. exact I1.
+  Qed.
+
+  (* THE run-to-quiescence theorem: whatever the state in which evaluate_petri_net is called
+     and whatever happens inside (re-entrant events, run-time generation), when it returns no
+     transition of the net is enabled *)
+  Theorem evaluate_all_quiescent : forall f s u s',
+      evaluate tasks env f s = Ok (u, s') -> quiescent s'.
+  Proof. intros f s u s' H. eapply (proj1 (quiescent_block f)); eauto. Qed.
+
+  Theorem logic_fire_event_true_quiescent : forall f ev s s',
+      logic_fire_event tasks env f ev s = Ok (true, s') -> quiescent s'.
+  Proof.
+    intros f ev s s' H. destruct f as [|f]; [discriminate H|].
+    rewrite logic_fire_event_S in H. unfold lfe_body in H. unfold nbind at 1, nget in H.
+    destruct (event_place s ev) as [[p|]| | |]; try discriminate H.
+    destruct (has_place s p); [|discriminate H].
+    apply nbind_inv in H. destruct H as (u1 & s1 & H1 & H).
+    apply nbind_inv in H. destruct H as (u2 & s2 & H2 & H).
+    inversion H; subst. eapply evaluate_all_quiescent; eauto.
+  Qed.
+
+  (* an accepted event: nothing is enabled when fire_event returns True *)
+  Theorem sched_fire_event_true_quiescent : forall f ev s s',
+      sched_fire_event tasks env f ev s = Ok (true, s') -> quiescent s'.
+  Proof.
+    intros f ev s s' H. destruct f as [|f]; [discriminate H|].
+    rewrite sched_fire_event_S in H.
+    destruct (existsb (event_eqb ev) (ns_awaited s)); [|discriminate H].
+    destruct (remove_first (event_eqb ev) (ns_awaited s)) as [l|]; [|discriminate H].
+    destruct (logic_fire_event tasks env f ev (s <| ns_awaited := l |>)) as [[[|] s1]| | |] eqn:E;
+      try discriminate H.
+    inversion H; subst. eapply logic_fire_event_true_quiescent; eauto.
+  Qed.
+
+  (* whatever fire_event returns: nothing enabled before, nothing enabled after *)
+  Theorem sched_fire_event_keeps_quiescent : forall f ev s b s',
+      sched_fire_event tasks env f ev s = Ok (b, s') -> quiescent s -> quiescent s'.
+  Proof.
+    intros f ev s b s' H Hq. destruct b.
+    - eapply sched_fire_event_true_quiescent; eauto.
+    - eapply same_net_quiescent; [|exact Hq]. eapply sched_fire_event_false_same_net; eauto.
+  Qed.
+
+  (* ---- the public API, no assumption on the shape of the net ---- *)
+  Theorem api_finish_accepted_quiescent : forall f s id s',
+      net_api_call tasks env f s (AFinish id) = Ok (true, s') -> quiescent s'.
+  Proof. intros f s id s' H. unfold net_api_call in H. eapply sched_fire_event_true_quiescent; eauto. Qed.
+
+  Theorem api_start_accepted_quiescent : forall f s b s',
+      existsb (event_eqb EvStart) (ns_awaited s) = true ->
+      has_place s (ns_start_place s) = true ->
+      net_api_call tasks env f s AStart = Ok (b, s') ->
+      quiescent s'.
+  Proof.
+    intros f s b s' Haw Hp H.
+    assert (Hq : forall s0 s1, sched_fire_event tasks env f EvStart s0 = Ok (true, s1) -> quiescent s1)
+      by (intros; eapply sched_fire_event_true_quiescent; eauto).
+    unfold net_api_call in H. cbv zeta in H.
+    change (ns_awaited (s <| ns_log := [] |>)) with (ns_awaited s) in H. rewrite Haw in H.
+    destruct (sched_fire_event tasks env f EvStart (s <| ns_log := [] |> <| ns_running := true |>))
+      as [[r s1]| | |] eqn:E; try discriminate H. inversion H; subst.
+    destruct r; [eapply Hq; eauto|].
+    exfalso. destruct f as [|f]; [discriminate E|].
+    rewrite sched_fire_event_S in E.
+    change (ns_awaited (s <| ns_log := [] |> <| ns_running := true |>)) with (ns_awaited s) in E.
+    rewrite Haw in E.
+    destruct (remove_first (event_eqb EvStart) (ns_awaited s)) as [l|]; [|discriminate E].
+    destruct f as [|f]; [discriminate E|].
+    rewrite logic_fire_event_S in E. unfold lfe_body in E. unfold nbind at 1, nget in E.
+    cbn [event_place] in E.
+    change (ns_start_place (s <| ns_log := [] |> <| ns_running := true |> <| ns_awaited := l |>))
+      with (ns_start_place s) in E.
+    change (has_place (s <| ns_log := [] |> <| ns_running := true |> <| ns_awaited := l |>) (ns_start_place s))
+      with (has_place s (ns_start_place s)) in E.
+    rewrite Hp in E.
+    match type of E with
+    | match ?m with _ => _ end = _ => destruct m as [[[|] s2]| | |] eqn:E2; try discriminate E
+    end.
+    apply nbind_inv in E2. destruct E2 as (u1 & s3 & _ & E2).
+    apply nbind_inv in E2. destruct E2 as (u2 & s4 & _ & E2). discriminate E2.
+  Qed.
+
+  (* every API call: nothing enabled before the call, nothing enabled after it; so in every
+     state in which control is with the caller the net is dead until the next event *)
+  Theorem api_call_keeps_quiescent_dyn : forall f s c b s',
+      net_api_call tasks env f s c = Ok (b, s') -> quiescent s -> quiescent s'.
+  Proof.
+    intros f s c b s' H Hq.
+    assert (Hc : quiescent (s <| ns_log := [] |>)) by exact Hq.
+    unfold net_api_call in H. cbv zeta in H.
+    destruct c as [|id| |k l|o|o].
+    - change (ns_awaited (s <| ns_log := [] |>)) with (ns_awaited s) in H.
+      destruct (existsb (event_eqb EvStart) (ns_awaited s)).
+      + destruct (sched_fire_event tasks env f EvStart (s <| ns_log := [] |> <| ns_running := true |>))
+          as [[r s1]| | |] eqn:E; try discriminate H. inversion H; subst.
+        eapply sched_fire_event_keeps_quiescent; [exact E|exact Hq].
+      + inversion H; subst. exact Hq.
+    - eapply sched_fire_event_keeps_quiescent; [exact H|exact Hc].
+    - eapply sched_fire_event_keeps_quiescent; [exact H|exact Hc].
+    - change (ns_ls (s <| ns_log := [] |>)) with (ns_ls s) in H.
+      destruct (existsb _ (ns_ls s)); inversion H; subst; exact Hq.
+    - inversion H; subst. exact Hq.
+    - change (ns_obs (s <| ns_log := [] |>)) with (ns_obs s) in H.
+      destruct (remove_first (Nat.eqb o) (ns_obs s)); inversion H; subst. exact Hq.
+  Qed.
+
+  Theorem api_reach_quiescent_dyn : forall f s s',
+      api_reach tasks env f s s' -> quiescent s -> quiescent s'.
+  Proof.
+    intros f s s' H. induction H as [s|s s1 c b s2 H1 IH H]; intro Hq; [exact Hq|].
+    eapply api_call_keeps_quiescent_dyn; [exact H|]. apply IH. exact Hq.
+  Qed.
+End Strong.
+
+(* =========================================================================== *)
+(* 7. a decidable check for concrete states, and the whole life of a scheduler    *)
+(* =========================================================================== *)
+Definition quiescentb (s : NS) : bool := forallb (fun t => negb (enabled s t)) (ns_trans s).
+
+Lemma quiescentb_spec : forall s, quiescentb s = true <-> quiescent s.
+Proof.
+  intro s. unfold quiescentb, quiescent. rewrite forallb_forall. split; intros H t Ht.
+  - apply H in Ht. destruct (enabled s t); [discriminate Ht|reflexivity].
+  - rewrite (H t Ht). reflexivity.
+Qed.
+
+(* from the constructor on: if the generated net has no enabled transition (a check by
+   evaluation for a concrete program: every generated transition has an input place and the
+   initial marking is empty), then in every state reached by any sequence of API calls --
+   whatever the engine does re-entrantly inside them, with or without run-time generation --
+   nothing is enabled: the net never waits with work it could do *)
+Theorem scheduler_always_quiescent : forall tasks env test_ids f s0 s',
+    net_init tasks test_ids = Ok s0 ->
+    quiescentb s0 = true ->
+    api_reach tasks env f s0 s' ->
+    quiescent s'.
+Proof.
+  intros tasks env test_ids f s0 s' _ Hq Hr.
+  eapply api_reach_quiescent_dyn; [exact Hr|]. apply quiescentb_spec. exact Hq.
+Qed.
+
+(* the states visited by a script (net_run_script only keeps their observations) *)
+Fixpoint net_run_states (tasks : list task) (env : envcfg) (f : nat) (s : NS) (cs : list apicall)
+  : res (list (bool * NS)) :=
+  match cs with
+  | [] => Ok []
+  | c :: r =>
+    rbind (net_api_call tasks env f s c) (fun '(b, s') =>
+    rbind (net_run_states tasks env f s' r) (fun t => Ok ((b, s') :: t)))
+  end.
+
+Lemma net_run_script_states : forall tasks env f cs s,
+    net_run_script tasks env f s cs =
+    rbind (net_run_states tasks env f s cs)
+          (fun l => Ok (map (fun bs => net_observe (fst bs) (snd bs)) l)).
+Proof.
+  intros tasks env f. induction cs as [|c r IH]; intro s; cbn [net_run_script net_run_states].
+  - reflexivity.
+  - destruct (net_api_call tasks env f s c) as [[b s1]| | |]; cbn [rbind]; try reflexivity.
+    rewrite IH. destruct (net_run_states tasks env f s1 r); reflexivity.
+Qed.
+
+Theorem net_run_states_reach : forall tasks env f cs s l,
+    net_run_states tasks env f s cs = Ok l ->
+    Forall (fun bs => api_reach tasks env f s (snd bs)) l.
+Proof.
+  intros tasks env f. induction cs as [|c r IH]; intros s l H; cbn [net_run_states] in H.
+  - inversion H. constructor.
+  - destruct (net_api_call tasks env f s c) as [[b s1]| | |] eqn:E; cbn [rbind] in H; try discriminate H.
+    destruct (net_run_states tasks env f s1 r) as [t| | |] eqn:E2; cbn [rbind] in H; try discriminate H.
+    inversion H; subst. constructor.
+    + cbn [snd]. eapply reach_step; [apply reach_refl|exact E].
+    + specialize (IH _ _ E2). rewrite Forall_forall in *. intros bs Hbs. specialize (IH bs Hbs).
+      clear - IH E. induction IH as [s2|s2 s3 c' b' s4 _ IH' H'].
+      * eapply reach_step; [apply reach_refl|exact E].
+      * eapply reach_step; [exact (IH' E)|exact H'].
+Qed.
+
+(* every state a script passes through has nothing enabled, if the first one had not *)
+Theorem net_run_states_quiescent : forall tasks env f cs s l,
+    net_run_states tasks env f s cs = Ok l ->
+    quiescent s ->
+    Forall (fun bs => quiescent (snd bs)) l.
+Proof.
+  intros tasks env f cs s l H Hq. apply net_run_states_reach in H.
+  rewrite Forall_forall in *. intros bs Hbs. eapply api_reach_quiescent_dyn; [apply H; exact Hbs|exact Hq].
+Qed.
+
+(* the statements are not vacuous: on the example of Examples.v (all statement kinds, a
+   parallel loop, an immediately completing service, rejected and junk calls) the 16 calls
+   return, the net grows at run time (from 25 to 27 transitions), and every state is found
+   quiescent by evaluation as well *)
+Example quiescence_inhabited :
+  exists s0 l,
+    net_init (p_tasks (rc_prog ex_case)) true = Ok s0 /\
+    quiescentb s0 = true /\
+    net_run_states (p_tasks (rc_prog ex_case)) (env_of ex_case) net_fuel s0 (rc_script ex_case) = Ok l /\
+    List.length l = 16 /\
+    List.length (ns_trans s0) = 25 /\
+    existsb (fun bs => Nat.eqb (List.length (ns_trans (snd bs))) 27) l = true /\
+    forallb (fun bs => quiescentb (snd bs)) l = true.
+Proof.
+  eexists. eexists. split; [vm_compute; reflexivity|].
+  split; [vm_compute; reflexivity|].
+  split; [vm_compute; reflexivity|].
+  repeat split; vm_compute; reflexivity.
+Qed.
